@@ -11,19 +11,30 @@ from checks.c11 import compare
 def gen_hist(rng, nops):
     toks = ["new:0"]
     live = {0}
+    # a block is in its "build" phase (items may be added: only blocks made by `new`) until it becomes the destination of a
+    # copy; from then on it is only read (the documented contract of read_generic_*: no item is added or removed once reading
+    # has started; the address-event cursor exists only in blocks that were copied / assigned / read from a file)
+    phase = {0: "build"}
     pools = {t: [] for t in T.TABLES}
     nxt = 1
     for _ in range(nops):
         k = rng.random()
         b = rng.choice(sorted(live)) if live else None
         if b is None or k < 0.05:
-            toks.append("new:%d" % nxt); live.add(nxt); nxt += 1
-        elif k < 0.45:
+            toks.append("new:%d" % nxt); live.add(nxt); phase[nxt] = "build"; nxt += 1
+        elif k < 0.36:
             t = rng.choice(T.TABLES)
             v = T.gen_value(rng, t, pools[t])
             pools[t].append(v); pools[t] = pools[t][-8:]
             # mostly through the public add_*, sometimes as the reader stores entries (add_value: equal values kept apart)
             toks.append("%s%s:%d:%s" % ("v" if rng.random() < 0.25 else "a", t, b, v))
+        elif k < 0.48:
+            if phase[b] == "build":
+                toks.append(rng.choice(["iq:%d:%d" % (b, rng.randrange(1, 9)), "im:%d:%d" % (b, rng.randrange(1, 9)), "ia:%d:%d" % (b, rng.randrange(0, 6))]))
+            elif phase[b] == "read":
+                toks.append(rng.choice(["rq:%d", "rq:%d", "rm:%d", "rm:%d", "RA:%d"]) % b)
+            else:
+                toks.append(rng.choice(["rq:%d", "rm:%d"]) % b)
         elif k < 0.6:
             t = rng.choice(T.TABLES)
             toks.append("g%s:%d:%d" % (t, b, rng.randrange(6)))
@@ -37,11 +48,13 @@ def gen_hist(rng, nops):
             toks.append("cp:%d:%d:%s" % (dst, b, how))
             if dst == nxt:
                 nxt += 1
-            live.add(dst)
+            live.add(dst); phase[dst] = "read"
         elif k < 0.9 and len(live) > 1:
             toks.append("del:%d" % b); live.discard(b)
         elif k < 0.94:
             toks.append("clr:%d" % b)
+            if phase[b] != "build":
+                phase[b] = "cleared"            # the address-event cursor of a cleared read block is not to be used
         else:
             toks.append("w:%d" % b)
     return toks
@@ -52,7 +65,8 @@ def check(run):
     rng = run.rng
     quick = run.tier == "quick"
     run.rule = ("histories over up to ~10 blocks: add/get/size on the nine tables interleaved with copy ctor / move ctor / copy assignment / "
-                "move assignment, destruction and clearing of sources, serialisation; run under ASan; distinct by history text; "
+                "move assignment, destruction and clearing of sources, serialisation; items added to blocks under construction and "
+                "read through read_generic_qr/_mm/_aec of their copies (cursors); run under ASan; distinct by history text; "
                 "non-trivial = contains a copy followed by a destruction or mutation of its source")
     run.trusted += ["harness/tbl.cpp (CdnsBlockRead objects)", "Driver/Tbl.lean", "tools/tblgen.py value-semantics reference", "AddressSanitizer for use-after-free"]
     seen = set()
@@ -60,6 +74,11 @@ def check(run):
     # the canonical witness of the pinned defect
     cases.append(["new:0", "act:0:1.1", "aip:0:x0a", "cp:1:0:cc", "del:0", "act:1:1.1", "aip:1:x0a", "aip:1:x0b", "gip:1:1", "sct:1"])
     cases.append(["new:0", "act:0:1.1", "new:1", "cp:1:0:ca", "act:0:2.2", "clr:0", "act:1:1.1", "act:1:2.2", "gct:1:1"])
+    # items and read cursors: a copy reads from the beginning whatever was read from its destination or its source before,
+    # and keeps reading after its source is gone
+    cases.append(["new:0", "iq:0:1", "iq:0:2", "im:0:7", "im:0:8", "im:0:9", "ia:0:3", "ia:0:3", "ia:0:5", "cp:1:0:cc", "rq:1", "rm:1", "rm:1",
+                  "new:2", "im:2:4", "im:2:5", "cp:1:2:ca", "rm:1", "rm:1", "rm:1", "rq:1", "cp:3:0:cc", "del:0", "RA:3", "rq:3", "rq:3", "rq:3", "rm:3"])
+    cases.append(["new:0", "ia:0:1", "ia:0:2", "ia:0:2", "iq:0:6", "cp:1:0:mc", "cp:2:1:cc", "RA:1", "del:1", "RA:2", "RA:2", "rq:2", "w:2", "w:0"])
     compare(run, cases, seen, "copy")
 
 
